@@ -42,6 +42,7 @@ pub fn prop() -> Prop {
         independent: &["harness algebra for the expected group key"],
         ref_sample: |_| 0,
         required_probes: &["histories_exhaustive_n3", "part3_ok_consistent_mixed_runs", "part3_rejected_cross_run_share", "part3_rejected_misaddressed_share", "global_assignments_checked", "signed_after_mixed_assignment"],
+        prepare: None,
     }
 }
 
